@@ -176,10 +176,13 @@ def _mapping(fn: ast.AST, rshapes) -> Dict[str, str]:
 
 def _rename(fn: ast.AST, safe: Dict[str, str]) -> int:
     renamed = 0
+    own = {id(a) for a in fn.args.args + fn.args.kwonlyargs + fn.args.posonlyargs}
     for n in ast.walk(fn):
         if isinstance(n, ast.Name) and n.id in safe:
             n.id = safe[n.id]
             renamed += 1
+        elif isinstance(n, ast.arg) and id(n) not in own and n.arg in safe:
+            n.arg = safe[n.arg]  # parameter of a lambda / nested function that shadows the renamed local
         elif isinstance(n, ast.ExceptHandler) and n.name in safe:
             n.name = safe[n.name]
     return renamed
